@@ -110,6 +110,23 @@ def serRead (n : Nat) : Parser Bytes := fun s =>
   else if s.length < n then .error .trunc
   else .ok (s.take n, s.drop n)
 
+/-- compiled form of `serRead`: looks at the first `n` bytes only (the definition above measures the
+    whole remaining stream, which makes the executable parser quadratic) -/
+def serReadFast (n : Nat) : Parser Bytes := fun s =>
+  if n > MAX_SIZE then .error .sererr
+  else
+    let h := s.take n
+    if h.length < n then .error .trunc else .ok (h, s.drop n)
+
+@[csimp] theorem serRead_eq_serReadFast : @serRead = @serReadFast := by
+  funext n s
+  simp only [serRead, serReadFast, List.length_take]
+  by_cases h : s.length < n
+  · have : min n s.length < n := by omega
+    simp [h, this]
+  · have : ¬ min n s.length < n := by omega
+    simp [h, this]
+
 def readU (w : Nat) : Parser Nat := fun s => do
   let (b, r) ← serRead w s
   pure (leNat b, r)
